@@ -4,7 +4,7 @@
    g_fixed cfg = false is the pinned snapshot, kept for the refutation witnesses. *)
 From Coq Require Import NArith List Bool.
 From ZV.Codec Require Import Bytes Block.
-From ZV.Seq Require Import SeqApi SeqSpec SeqProofs SeqTranscribe SeqMinLen SeqExec SeqProducer SeqProducerFrame SeqFallback.
+From ZV.Seq Require Import SeqApi SeqSpec SeqProofs SeqTranscribe SeqMinLen SeqExec SeqProducer SeqProducerFrame SeqFallback SeqAccept.
 Import ListNotations.
 Local Open Scope N_scope.
 
@@ -387,3 +387,64 @@ Theorem C17_fallback_stale_history_frame_refuted :
                 map (fun b => map t_ob (b_seqs b)) blks = [[8; 40; 67]; [153]; [8]] /\ blocks_lockstep (1, 4, 8) [] blks).
 Proof. exact fallback_stale_history_frame_refuted. Qed.
 Print Assumptions C17_fallback_stale_history_frame_refuted.
+
+(* ---- round 3: completeness for explicit delimiters (coq/Seq/SeqAccept.v): rule-abiding lists are never refused ----
+   rule_list cfg pos pre = the documented rule on the caller's sequences (1 <= offset <= bound at the position where the match
+   starts, matchLength >= lower bound).  The code as repaired (g_fixed), validation on or off, repcode search on or off, every
+   history. *)
+(* one block: sequences that obey the rule (required under validation only), fill the block exactly together with the
+   delimiter's literals, number at most maxNbSeq, offsets below 2^32-3: ZSTD_copySequencesToSeqStoreExplicitBlockDelim succeeds,
+   consumes the block and leaves the position at the end of the block *)
+Theorem C17_explicit_block_accepted : forall cfg ers bsz pre d rest rep pos,
+  g_fixed cfg = true -> bsz < M32 ->
+  nondelims pre -> SeqApi.is_delim d = true -> offs_small pre ->
+  (g_validate cfg = true -> rule_list cfg pos pre) ->
+  N.of_nat (length pre) <= g_maxNbSeq cfg ->
+  length_sum pre + SeqApi.q_ll d = bsz ->
+  exists br, copy_explicit cfg ers bsz (pre ++ d :: rest) rep pos = Done (rest, br) /\ r_adj br = 0 /\
+    (g_validate cfg = true -> r_pos br = pos + bsz).
+Proof. exact copy_explicit_accepts. Qed.
+Print Assumptions C17_explicit_block_accepted.
+(* ZSTD_compressSequences with explicit delimiters: a list made of such blocks, each at most the block size, covering the source,
+   is accepted (whatever follows in the array is ignored); with theorems 2 and 4 the blocks it returns are valid parses of their
+   slices and in lock-step with the decoder *)
+Theorem C17_explicit_lists_accepted : forall cfg ers bsMax bs trailing rep dec,
+  g_fixed cfg = true -> bsMax < M32 -> xbs_ok cfg bsMax 0 bs ->
+  exists blks, compress_sequences cfg true ers bsMax (xbs_total bs) (flat bs ++ trailing) rep dec = Done blks.
+Proof. exact compress_sequences_accepts_explicit. Qed.
+Print Assumptions C17_explicit_lists_accepted.
+Theorem C17_explicit_lists_accepted_example :
+  xbs_ok (wcfg 17 0) 1024 0 xw_blocks /\ xbs_total xw_blocks = 40 /\
+  exists blks, compress_sequences (wcfg 17 0) true true 1024 40 (flat xw_blocks) (1, 4, 8) [] = Done blks /\ length blks = 2%nat.
+Proof. exact compress_sequences_accepts_explicit_example. Qed.
+Print Assumptions C17_explicit_lists_accepted_example.
+(* a producer call whose (post-processed) answer is such a block at the block's position in the frame is stored, and a frame of
+   such calls is never refused (code since fix: e3dc2db; for the code before it see C17_producer_position_false_rejection) *)
+Theorem C17_producer_answer_accepted : forall cfg ers fb c rep pos,
+  g_fixed cfg = true -> call_abides cfg pos c ->
+  exists br, producer_block_at cfg ers fb (pc_buf c) (pc_nb c) (pc_cap c) (pc_size c) rep pos = PRstore br.
+Proof. exact producer_block_at_accepts. Qed.
+Print Assumptions C17_producer_answer_accepted.
+Theorem C17_producer_frame_never_refuses_valid_answers : forall cfg ers fb calls rep pos dec,
+  g_fixed cfg = true -> calls_abide cfg pos calls ->
+  exists blks, producer_frame true cfg ers fb calls rep pos dec = Done blks.
+Proof. exact producer_frame_accepts. Qed.
+Print Assumptions C17_producer_frame_never_refuses_valid_answers.
+(* satisfiable, and position matters: the frame of the false-rejection witness abides at the frame positions, while its second
+   answer does not obey the rule at position 0 *)
+Theorem C17_producer_frame_accepts_example :
+  calls_abide (wcfg 17 0) 0 w1_calls /\ ~ rule_list (wcfg 17 0) 0 [{| q_off := 1024; SeqApi.q_ll := 0; SeqApi.q_ml := 1024 |}].
+Proof. exact producer_frame_accepts_example. Qed.
+Print Assumptions C17_producer_frame_accepts_example.
+
+(* producer frames with validation on, sound AND complete (composition of the theorem above with C17_producer_frame_rule and
+   C17_producer_frame_lockstep): a frame of rule-abiding answers is accepted, every stored sequence obeys the documented rule
+   (= R's strict window rule), the codes are in lock-step with the decoder for every list of commit decisions, the lengths fill
+   every block, one block per call *)
+Theorem C17_producer_frame_sound_and_complete : forall cfg ers fb calls rep dec,
+  g_fixed cfg = true -> g_validate cfg = true -> rep_ok rep -> calls_abide cfg 0 calls ->
+  exists blks, producer_frame true cfg ers fb calls rep 0 dec = Done blks /\
+    blocks_rule cfg 0 blks /\ blocks_lockstep rep dec blks /\
+    Forall (fun b => stored_sum32 (b_seqs b) + b_lastLL b = b_size b) blks /\ map b_size blks = map pc_size calls.
+Proof. exact producer_frame_sound_and_complete. Qed.
+Print Assumptions C17_producer_frame_sound_and_complete.
